@@ -9,6 +9,7 @@
 import XMT.CfgBuildPack
 import XMT.CfgEquiv
 import XMT.CfgGroups
+import XMT.CfgGroupsPack
 namespace XMT.Props.C08
 open XMT XMT.Cfg
 
@@ -99,13 +100,17 @@ theorem groups_partition (c : Bytes) (hc : c ≠ []) :
       (∀ p : Nat, p < parts.length → group c (p : Int) = .ok parts[p]?) ∧ joinSep parts = c :=
   groups_partition_all c hc
 
--- OPEN: groups_of_pack — for packed configs the parts are the groups that were added:
---   groupsOK tls gs → groups (packGroups gs) = .ok gs.length ∧
---     ∀ i < gs.length, group (packGroups gs) i = .ok (some (bytesOf gs[i])).
---   (`groups_partition` gives a partition at the separators the stride walk visits; that these are
---   exactly the separators `AddGroup` wrote follows from `setting_stride` by the same induction as
---   `build_pack` but is not carried out.)  Evaluated on the real code for every generated config by
---   the oracles `groups:count` / `groups:extract`.
+/-- **For packed configs the parts are the groups that were added** — for every list of groups
+produced by the public constructors (`groupsOK`): `Groups()` is the number of groups added and
+`Group(i)` is exactly the bytes of the i-th group added. (`groups_partition` alone only says the
+bytes are cut at the separators the stride walk visits; that those are exactly the separators
+`AddGroup` wrote, and that no offset the walk visits inside a group holds the separator tag — also
+not a length byte or payload byte equal to 0xFA — follows from the per-constructor stride facts.) -/
+theorem groups_of_pack (tls : Bytes → Bytes → Bytes → Bool) (gs : List (List Setting))
+    (hok : groupsOK tls gs = true) :
+    groups (packGroups gs) = .ok gs.length ∧
+      ∀ i : Nat, i < gs.length → group (packGroups gs) (i : Int) = .ok (gs[i]?.map bytesOf) :=
+  groups_of_pack_all tls gs hok
 
 /-! Non-vacuity: concrete settings lists meet `groupsOK`, and the model really computes the
 expected bytes and profile — including the inputs of the three defects this property exposed
@@ -123,5 +128,13 @@ example : groups [0xC0, 0xFA, 0xC1] = .ok 2 ∧ group [0xC0, 0xFA, 0xC1] 1 = .ok
     joinSep [[0xC0], [0xC1]] = [0xC0, 0xFA, 0xC1] := ⟨rfl, rfl, rfl⟩
 example : build (fun _ _ _ => true) (packGroups [[.host [0x61], .dns [[0x64]]]]) =
     .ok (some ⟨[{ hosts := [[0x61]], trans := some (.dns [[0x64]]) }], 0, [0xA0, 0, 1, 0x61, 0xE1, 1, 1, 0x64]⟩) := rfl
+
+/-- `groups_of_pack` on a concrete two-group config whose first group contains the byte 0xFA as a
+payload byte (a host name) and as a length byte: the walk does not take either for a separator. -/
+example : groups (packGroups [[.host [0xFA, 0x61], .flag tTCP], [.weight 7, .jitter 0xFA]]) = .ok 2 ∧
+    group (packGroups [[.host [0xFA, 0x61], .flag tTCP], [.weight 7, .jitter 0xFA]]) 1 =
+      .ok (some [0xA3, 7, 0xA2, 0xFA]) := by
+  have h := groups_of_pack (fun _ _ _ => true) [[.host [0xFA, 0x61], .flag tTCP], [.weight 7, .jitter 0xFA]] (by decide)
+  exact ⟨h.1, h.2 1 (by decide)⟩
 
 end XMT.Props.C08
